@@ -21,7 +21,7 @@ RULE = ('(a) generated block bodies (reads/sets/replaces/deletes/pops/pulls/incr
         'evaluations = (body, raise point) executions + schedules; distinct_nontrivial = distinct (container, '
         'exception type, operation mix at the raise point) cells + distinct schedules with a preemption inside a block')
 DISTINCT = ('abort_cells', 'block_schedules', 'block_plan_schedules')
-REQUIRED = ('block_plan_schedules_judged', 'aborts_judged', 'commits_judged', 'nested_blocks', 'aborted_after_file_removal', 'aborted_after_file_write',
+REQUIRED = ('block_schedules_through_a_sharded_cache', 'block_plan_schedules_judged', 'aborts_judged', 'commits_judged', 'nested_blocks', 'aborted_after_file_removal', 'aborted_after_file_write',
             'deque_blocks', 'index_blocks', 'fanout_blocks', 'block_schedules_run', 'snapshot_reads',
             'foreign_thread_attempts', 'blocks_whose_commit_had_to_wait')
 ASSUMPTIONS = ('the reference model is flat: only the outermost block exit decides commit or rollback',
@@ -352,7 +352,16 @@ def block_schedule(dc, sc, res, rng, label):
     d = sc.new()
     clock = probe.set_clock(probe.VClock())
     shared = rng.random() < 0.5
-    setup = dc.Cache(d, timeout=0, disk_min_file_size=T)
+    # a quarter of the schedules go through the sharded front end (one shard, so that a snapshot is still one SELECT):
+    # its transact() opens a transaction on every shard and must behave like Cache.transact()
+    sharded = rng.random() < 0.25
+    data_dir = os.path.join(d, '000') if sharded else d
+    if sharded:
+        res.count('block_schedules_through_a_sharded_cache')
+
+    def open_handle(**kw):
+        return dc.FanoutCache(d, shards=1, **kw) if sharded else dc.Cache(d, **kw)
+    setup = open_handle(timeout=0, disk_min_file_size=T)
     keys = ['k1', 'k2', 'k3']
     big = rng.random() < 0.5
     for k in keys:
@@ -361,13 +370,13 @@ def block_schedule(dc, sc, res, rng, label):
     nsingle = rng.randrange(0, 2)
     nreaders = rng.randrange(1, 3)
     n = nwriters + nsingle + nreaders
-    caches = LateHandles(rng, n, lambda: dc.Cache(d, timeout=0), shared=setup if shared else None, reopen=0.0)
+    caches = LateHandles(rng, n, lambda: open_handle(timeout=0), shared=setup if shared else None, reopen=0.0)
     sch = Sched(rng, clock, strategy=rng.choice(['random', 'preempt', 'random', 'ops']),
                 preempt_points={rng.randrange(0, 150) for _ in range(3)})
     if store_gates(sch, rng, dc):
         res.count('schedules_with_attribute_store_gates')
     rec = Recorder(sch)
-    obs = observe.Observer(d)
+    obs = observe.Observer(data_dir)
     snapshots = []
     commit_points = {}       # stamp -> logical time at which its writer passed pre:COMMIT (None while uncommitted)
     foreign = {'attempts': 0, 'timeouts': 0}
@@ -405,8 +414,8 @@ def block_schedule(dc, sc, res, rng, label):
                 foreign['attempts'] += 1
                 retry = rng.random() < 0.6
                 r = rec.call(ci, 'set', (k, s), lambda: cache.set(k, s, retry=retry))
-                if r['kind'] == 'raise' and r['result'] == 'Timeout':
-                    foreign['timeouts'] += 1
+                if (r['kind'] == 'raise' and r['result'] == 'Timeout') or (sharded and r['kind'] == 'ok' and r['result'] is False):
+                    foreign['timeouts'] += 1      # (the sharded front end reports a timeout as False)
                     r['op'] = 'noop'
         return run
 
@@ -416,7 +425,7 @@ def block_schedule(dc, sc, res, rng, label):
             for rnd in range(rng.randrange(2, 5)):
                 if rng.random() < 0.5:
                     t0 = sch.now()
-                    snap = read_snapshot(d, obs, keys)
+                    snap = read_snapshot(data_dir, obs, keys)
                     if snap is not None:
                         snapshots.append((t0, snap))
                     sch.gate('reader-yield')
@@ -455,7 +464,7 @@ def block_schedule(dc, sc, res, rng, label):
             if o['op'] == 'block':
                 o = dict(o, result=tuple(('ok', True) for _ in o['args'][0]))
             ops.append(o)
-        fresh = dc.Cache(d)
+        fresh = open_handle()
         t = sch.tick + 5
         for k in keys:
             ops.append({'client': 99, 'op': 'get', 'args': (k, 'MISS'), 'kw': {}, 'call': t, 'ret': t + 1, 'kind': 'ok',
@@ -513,7 +522,7 @@ def block_schedule(dc, sc, res, rng, label):
 
 
 # ------------------- one shared Cache object: a block beside another thread, statement-level change points enumerated
-def block_plans(dc, sc, res, rng, label, other, abort, big, part):
+def block_plans(dc, sc, res, rng, label, other, abort, big, part, budget=10**9, gates=True):
     """Thread A runs one transact() block (two writes; committed or left by an exception), thread B makes one call or
     runs a block of its own, both through ONE Cache object.  Gates: SQL statements, file operations and the statements
     of the library that store an attribute (the owner thread id and the file lists of the open transaction live in
@@ -534,7 +543,7 @@ def block_plans(dc, sc, res, rng, label, other, abort, big, part):
             for k in keys:
                 cache.set(k, init_v)
             clock = probe.set_clock(probe.VClock())
-            sch = Sched(rng, clock, strategy='plan', max_steps=30000, line_codes=codes, only_stores=True)
+            sch = Sched(rng, clock, strategy='plan', max_steps=30000, line_codes=codes, only_stores=gates)
             sch.plan, sch.start = plan, start
             rec = Recorder(sch)
             sa, sb = stamp('A', big), stamp('B', big)
@@ -621,7 +630,13 @@ def block_plans(dc, sc, res, rng, label, other, abort, big, part):
             o = 1 - start
             plans += [({a: o}, start) for a in range(1, n + 3)]
             plans += [({a: o, b: start}, start) for a in range(1, n + 3) for b in range(a + 1, n + 6)]
-        for plan, start in plans[part[0]::part[1]]:
+        plans = plans[part[0]::part[1]]
+        if len(plans) > budget:
+            plans = rng.sample(plans, budget)
+            res.count('block_plan_programs_sampled')
+        else:
+            res.count('block_plan_programs_exhausted_to_bound_2')
+        for plan, start in plans:
             if run(plan, start) is None:
                 return
         res.count('block_plan_programs')
@@ -770,7 +785,7 @@ def run_shard(tier, seed, shard, nshards, res):
             block_commit_waiting(dc, sc, res, rng, 'c06 commit waiting seed=%d shard=%d i=%d' % (seed, shard, i))
         # a block beside another thread on one shared object, all plans to the bound: 20 programs (what the other thread
         # does x block commits or aborts x values in files or not); a quick run does a sixth of the plans of the
-        # program that is this worker's turn (eight programs per run), the thorough tier all plans of five programs per worker
+        # program that is this worker's turn (eight programs per run); the thorough tier also switches at function entries, the thorough tier all plans of five programs per worker
         programs = [(o, a, b) for o in ('set', 'get', 'block', 'pop', 'delitem') for a in (False, True) for b in (False, True)]
         if tier == 'quick':
             o, a, b = programs[(seed * 16 + shard) // 2 % len(programs)]
@@ -780,7 +795,7 @@ def run_shard(tier, seed, shard, nshards, res):
             for j in range(5):
                 o, a, b = programs[(seed * 7 + shard * 5 + j) % len(programs)]
                 block_plans(dc, sc, res, common.rng_for(seed, 'c06p', shard, j),
-                            'c06 plans seed=%d shard=%d j=%d' % (seed, shard, j), o, a, b, (0, 1))
+                            'c06 plans seed=%d shard=%d j=%d' % (seed, shard, j), o, a, b, (0, 1), gates='with entries')
         probe.reset()
         m = 40 if tier == 'quick' else 500
         for i in range(m):
